@@ -74,6 +74,13 @@ def run(chk):
         if iff.get("else") and iff["else"]["k"] != "If":
             t2 = show(iff["else"])
             branches.append(("else", "openExisting" if "openExisting" in t2 else "openNew" if "openNew" in t2 else "?"))
+    # facts are loaded with `if (!c) A else B` as `if (c) B else A`: bring the SEQNUM test back to its negated spelling
+    if [b[1] for b in branches] == ["openNew", "openExisting", "?"] or [b[1] for b in branches] == ["openNew", "openExisting", "throw"]:
+        c1_ = branches[1][0]
+        if 'hasKey(' in c1_ and not c1_.startswith("(!"):
+            iff2 = [n for n in walk(ou["body"]) if n["k"] == "If"][1]
+            if iff2.get("else") is not None and any(x["k"] == "Throw" for x in walk(iff2["else"])):
+                branches = [branches[0], ("(!%s)" % c1_, "throw"), ("else", "openExisting")]
     chk.instance(r_ord, "openUnified", sample=branches)
     if [b[1] for b in branches] != ["openNew", "throw", "openExisting"] or branches[0][0] != "(rst == nullptr)" or 'hasKey("SEQNUM")' not in branches[1][0].replace("std::basic_string<char>{", "").replace(", <default>}", ""):
         chk.violation(r_ord, "openUnified", "Restart::openUnified decides %s; expected: no file -> create, no SEQNUM -> reject, else reopen" % branches, ou["file"], ou["l"])
